@@ -231,29 +231,46 @@ def pairing_remove(rep):
 
 
 def prune_blocks(rep):
+    from ..facts import conjunct_nodes
     n_blocks = 0
     for q in ("remove_rxn", "remove_species"):
         fi = rep.f(HG, CLS + q)
-        for st in [n for n in walk_local(fi.node) if isinstance(n, ast.If)]:
-            calls = [c for c in walk_local(st) if isinstance(c, ast.Call)]
-            disc = [c for c in calls if norm(c.func) == "self.species.discard"]
-            if not disc or not any(x is disc[0] for b in st.body for x in ast.walk(b)):
-                continue
-            # only the innermost If that directly holds the discard
-            if any(isinstance(b, ast.If) and any(x is disc[0] for x in ast.walk(b)) for b in st.body):
-                continue
+        pm = parent_map(fi.node)
+        for d in [c for c in walk_local(fi.node) if isinstance(c, ast.Call) and norm(c.func) == "self.species.discard" and c.args]:
             n_blocks += 1
-            key = norm(disc[0].args[0])
-            t = st.test
-            conj = t.values if isinstance(t, ast.BoolOp) and isinstance(t.op, ast.And) else [t]
-            ctx = sorted(norm(c).replace(" ", "") for c in conj)
-            want = sorted([f"notself.species_to_in_edges.get({key})", f"notself.species_to_out_edges.get({key})"])
-            rep.ob("O15.2", "R6b", fi, ctx == want, t, "a species is pruned only when it has neither producing nor consuming reactions left", node=st)
-            ops = {norm(c.func): [norm(a) for a in c.args] for c in calls if any(x is c for b in st.body for x in ast.walk(b))}
+            key = norm(d.args[0])
+            # the conditions under which the discard runs (enclosing tests and preceding guard clauses), as a flat conjunction
+            conds = []
+            for t, s_ in guards_of(pm, d, fi.node):
+                if s_:
+                    conds += [(c_, True) for c_ in conjunct_nodes(t)]
+                else:
+                    conds.append((t, False))
+            flat = []
+            for c_, s_ in conds:
+                while isinstance(c_, ast.UnaryOp) and isinstance(c_.op, ast.Not):
+                    c_, s_ = c_.operand, not s_
+                flat.append((norm(c_).replace(" ", ""), s_))
+            need_c = {(f"self.species_to_in_edges.get({key})", False), (f"self.species_to_out_edges.get({key})", False)}
+            extra = [f for f in flat if f not in need_c and f[0] not in ("prune_orphans",) and not f[0].endswith("notinself.edges") and not f[0].endswith("notinself.species")
+                     and not (f[0].endswith("inself.edges") and f[1]) and not (f[0].endswith("inself.species") and f[1])]
+            rep.ob("O15.2", "R6b", fi, need_c <= set(flat) and not extra, f"discard({key}) under {sorted(flat)}",
+                   "a species is pruned only when it has neither producing nor consuming reactions left", node=d)
+            # the set, both indices and the molecule map go together: the three pops are siblings of the discard
+            st = pm.get(d)
+            while st is not None and not isinstance(st, ast.stmt):
+                st = pm.get(st)
+            owner = pm.get(st)
+            sibs = []
+            for f_ in ("body", "orelse", "finalbody"):
+                lst = getattr(owner, f_, None)
+                if isinstance(lst, list) and any(x is st for x in lst):
+                    sibs = lst
+            ops = {norm(c.func): [norm(a) for a in c.args] for s2 in sibs for c in ast.walk(s2) if isinstance(c, ast.Call) and c.args}
             need = {"self.species.discard": key, "self.species_to_in_edges.pop": key, "self.species_to_out_edges.pop": key, "self.species_to_mol.pop": key}
             missing = [k for k, v in need.items() if k not in ops or ops[k][0] != v]
             rep.ob("O15.2", "R6b", fi, not missing, f"prune block for `{key}`", "pruning removes the species from the set, both indices and the molecule map together",
-                   {"missing": missing}, node=st)
+                   {"missing": missing}, node=d)
     rep.need("R6b", n_blocks, 3, "orphan prune blocks (2 in remove_rxn, 1 in remove_species)")
 
 
